@@ -38,6 +38,10 @@ class ForwardUnit(Unit):
     def verus_text(self, ctx, prog, pre, asm, lemmas):
         inner = prog.inner.verus_enum() if prog.inner else ''
         return '\n'.join([prog.aux_verus, inner, prog.verus_enum(), pre, asm.text, lemmas])
+    def candidate_replay(self, ctx, prog, o):
+        from .. import lreplay
+        f = o.fn.split('::')[-1]
+        return lreplay.parse(prog, o.fn) if f in ('from_str', 'try_from', 'vx_complete') else lreplay.printers(prog, o.fn)
     # bounded round trip on the real code
     def kani_module(self, ctx, prog):
         if 'EnumString' not in prog.derives:
